@@ -31,7 +31,7 @@ def main():
             continue
         sh("git checkout -q --detach $(git -C /repo rev-parse HEAD); git checkout -q -- . ; git clean -fdq -e target")
         locn = meta.get("demo_location", "tests/demo.rs")
-        locn = re.sub(r"^/tmp/wt/C\d+/", "", locn)
+        locn = re.sub(r"^/tmp/wt2?/C\d+/", "", locn)
         m = re.search(r"(tests/[A-Za-z0-9_]+\.rs)", locn)
         if not m:
             out["error"] = "demo is not an integration test: %s" % locn
